@@ -476,7 +476,7 @@ def gridded_cases(draw):
         return g
     return {'xgrid': grid(nxg), 'ygrid': grid(nyg),
             'psf_shape': [draw(st.integers(5, 11)), draw(st.integers(5, 11))],
-            'oversampling': draw(st.sampled_from([1, 2, 4])),
+            'oversampling': draw(st.sampled_from([1, 2, 4, [2, 4], [3, 1]])),
             'seed': draw(st.integers(0, 10**5)),
             'shuffle': draw(st.lists(st.integers(0, 99), min_size=1, max_size=16)),
             'fill_value': draw(st.sampled_from([0.0, 0.0, -5.0])),
